@@ -2,3 +2,4 @@ import NanoVerif.Props.C10
 import NanoVerif.Props.C11
 import NanoVerif.Props.C12
 import NanoVerif.Props.C13
+import NanoVerif.Props.C14
